@@ -1,6 +1,6 @@
 (* Case runner for the docopt tail mirror. *)
 From Coq Require Import List String Ascii Bool NArith.
-From RashV Require Import Sexp Tail NormOpts.
+From RashV Require Import Sexp Tail NormOpts OptLookup.
 Import ListNotations.
 Open Scope string_scope. Open Scope list_scope.
 
@@ -61,6 +61,17 @@ Definition run_normopts (e : sexp) : option sexp :=
                 | Some l => SList (Atom "some" :: map bytes_atom l)
                 | None => Atom "unknown-option"
                 end)
+      | _, _ => None
+      end
+  | _ => None
+  end.
+
+(* (optfind (opts ODESC...) xARG) -> none | xSIMPLE_REPR : Options::find as repaired (the smallest matching description) *)
+Definition run_optfind (e : sexp) : option sexp :=
+  match e with
+  | SList [Atom "optfind"; SList (Atom "opts" :: os); a] =>
+      match map_opt dec_odesc os, atom_bytes a with
+      | Some os, Some a => Some (match ofind_min os a with Some d => bytes_atom (simple_repr d) | None => Atom "none" end)
       | _, _ => None
       end
   | _ => None
